@@ -41,6 +41,8 @@ pub enum SVal {
 }
 
 pub struct TimerSlot {
+    /// the 30-minute timer of the wait for the reboot
+    reboot: bool,
     fired: bool,
     dropped: bool,
     done: bool,
@@ -78,6 +80,13 @@ pub struct World {
     last_wire_cup: Option<(u64, String)>,
     genuine: Vec<(Vec<u8>, Vec<u8>)>, // earlier genuine (body, etag) pairs for replays
     pub backoffs_ms: Vec<u64>,
+    // script-aware checks (the harness knows which timers it fired and which requests it sent; a trace does not)
+    pub violation: Option<String>,
+    reboot_wait: bool,
+    reboot_asks: u32,
+    reask_causes: u32,
+    wait_timers: Vec<usize>,
+    pending_requests: i64,
     cup_keys: Option<(u64, Vec<u64>)>,
     pub panicked: Option<String>,
 }
@@ -91,6 +100,10 @@ fn key_for(id: u64) -> SigningKey {
 }
 
 impl World {
+    fn violate(&mut self, what: &str) {
+        self.jtrace.push(format!("VIOLATION: {}", what));
+        if self.violation.is_none() { self.violation = Some(what.to_string()); }
+    }
     fn log(&mut self, g: String, j: String) {
         self.trace.push(g);
         self.jtrace.push(j);
@@ -368,6 +381,7 @@ impl PolicyEngine for Pol {
         protocol_state: &'a ProtocolState,
     ) -> BoxFuture<'a, CheckTiming> {
         let mut w = self.w.lock().unwrap();
+        w.wait_timers.clear();
         let t = match w.pop(0) {
             Some(v) => timing_of(&v),
             None => CheckTiming::builder().time(PartialComplexTime::Monotonic(inst_from_ns(0))).build(),
@@ -403,6 +417,9 @@ impl PolicyEngine for Pol {
             CheckDecision::ThrottledByPolicy => "DThrottled".to_string(),
             CheckDecision::DeniedByPolicy => "DDenied".to_string(),
         };
+        if w.pending_requests == 0 && w.wait_timers.iter().any(|&k| !w.timers[k].fired) {
+            w.violate("an unrequested check begins although a timer armed for this wait has not fired");
+        }
         w.log(
             format!(
                 "APolicy (QCheckAllowed {} {} {} {}) (PDecision {})",
@@ -430,6 +447,16 @@ impl PolicyEngine for Pol {
     fn reboot_allowed<'a>(&'a mut self, check_options: &'a CheckOptions, _r: &'a ()) -> BoxFuture<'a, bool> {
         let mut w = self.w.lock().unwrap();
         let b = w.pop(4).and_then(|v| v.as_bool()).unwrap_or(true);
+        if w.reboot_wait {
+            if w.reboot_asks >= 1 {
+                if w.reask_causes == 0 {
+                    w.violate("the reboot question is re-asked although neither its 30-minute timer fired nor an on-demand request arrived");
+                } else {
+                    w.reask_causes -= 1;
+                }
+            }
+            w.reboot_asks += 1;
+        }
         w.log(
             format!("APolicy (QRebootAllowed {}) (PBool {})", g_source(&check_options.source), g_bool(b)),
             format!("policy reboot_allowed src={:?} -> {}", check_options.source, b),
@@ -675,10 +702,12 @@ impl Drop for TimerFut {
 impl Tim {
     fn arm(&self, g: String, j: String) -> BoxFuture<'static, ()> {
         let mut w = self.w.lock().unwrap();
+        let reboot = w.reboot_wait && j == "timer for 1800s";
         w.log(format!("ATimer ({})", g), j);
         let auto = w.in_check;
-        w.timers.push(TimerSlot { fired: auto, dropped: false, done: false, waker: None });
+        w.timers.push(TimerSlot { reboot, fired: auto, dropped: false, done: false, waker: None });
         let idx = w.timers.len() - 1;
+        if !auto && !reboot { w.wait_timers.push(idx); }
         TimerFut { w: self.w.clone(), idx }.boxed()
     }
 }
@@ -831,6 +860,9 @@ impl HttpRequest for Http {
             let o = w.pop(5);
             let cup_on = w.cup_keys.is_some();
             let go = match &o { Some(o) => g_http_outcome(o, cup_on), None => "(HErr TTransport)".to_string() };
+            if w.reboot_wait && w.wait_timers.iter().any(|&k| !w.timers[k].fired) {
+                w.violate("a ping goes out although a timer armed for its wait has not fired");
+            }
             w.log(
                 format!(
                     "AHttp {{| w_uri := {}; w_headers := {}; w_body := {}; w_sum := {} |}} {}",
@@ -984,6 +1016,8 @@ pub struct RunResult {
     pub backoffs_ms: Vec<u64>,
     pub committed: Vec<(String, SVal)>,
     pub snaps: Vec<Vec<(String, SVal)>>,
+    /// a violation only the harness can see (it knows which timers it fired and which requests it sent)
+    pub violation: Option<String>,
     pub hang: bool,
     pub panic: Option<String>,
 }
@@ -1038,6 +1072,12 @@ pub fn run_sm(c: &Value) -> RunResult {
         last_wire_cup: None,
         genuine: vec![],
         backoffs_ms: vec![],
+        violation: None,
+        reboot_wait: false,
+        reboot_asks: 0,
+        reask_causes: 0,
+        wait_timers: vec![],
+        pending_requests: 0,
         cup_keys: if cupv.is_null() { None } else { Some((cupv["latest"].as_u64().unwrap(), vec![])) },
         panicked: None,
     }));
@@ -1065,6 +1105,7 @@ pub fn run_sm(c: &Value) -> RunResult {
         backoffs_ms: std::mem::take(&mut w.backoffs_ms),
         committed: w.comm.clone(),
         snaps: std::mem::take(&mut w.snaps),
+        violation: w.violation.clone(),
         hang,
         panic,
     }
@@ -1119,10 +1160,15 @@ fn drive(c: &Value, world: W) -> bool {
             let opts = CheckOptions { source };
             let id = *next_ctl;
             *next_ctl += 1;
-            world.lock().unwrap().log(format!("ARequest {} {}", id, g_source(&source)), format!("request {} {:?}", id, source));
+            {
+                let mut w = world.lock().unwrap();
+                w.pending_requests += 1;
+                if w.reboot_wait && src == "ondemand" { w.reask_causes += 1; }
+                w.log(format!("ARequest {} {}", id, g_source(&source)), format!("request {} {:?}", id, source));
+            }
             let mut fut: CtlFut = Box::pin(async move { h.start_update_check(opts).await });
             if let Poll::Ready(r) = fut.as_mut().poll(cx) {
-                world.lock().unwrap().jtrace.push(format!("reply {} immediate {:?}", id, r.is_ok()));
+                { let mut w = world.lock().unwrap(); w.pending_requests -= 1; w.jtrace.push(format!("reply {} immediate {:?}", id, r.is_ok())); }
                 controls.push((id, None));
             } else {
                 controls.push((id, Some(fut)));
@@ -1140,6 +1186,10 @@ fn drive(c: &Value, world: W) -> bool {
             if let Some(fut) = f {
                 if let Poll::Ready(res) = fut.as_mut().poll(&mut cx) {
                     let mut w = world.lock().unwrap();
+                    w.pending_requests -= 1;
+                    if res.is_err() && !matches!(r, Poll::Ready(None)) {
+                        w.violate("a start-update-check request fails with a gone error although the machine is still running");
+                    }
                     match res {
                         Ok(StartUpdateCheckResponse::Started) => w.log(format!("AReply {} Started", id), format!("reply {} Started", id)),
                         Ok(StartUpdateCheckResponse::AlreadyRunning) => w.log(format!("AReply {} AlreadyRunning", id), format!("reply {} AlreadyRunning", id)),
@@ -1159,6 +1209,8 @@ fn drive(c: &Value, world: W) -> bool {
                     match &ev {
                         StateMachineEvent::StateChange(State::CheckingForUpdates(_)) => w.in_check = true,
                         StateMachineEvent::UpdateCheckResult(_) => w.in_check = false,
+                        StateMachineEvent::StateChange(State::WaitingForReboot) => { w.reboot_wait = true; w.reboot_asks = 0; w.reask_causes = 0; }
+                        StateMachineEvent::StateChange(State::Idle) => w.reboot_wait = false,
                         _ => {}
                     }
                     w.log(format!("AEvent ({})", g), j);
@@ -1188,6 +1240,7 @@ fn drive(c: &Value, world: W) -> bool {
                     let pending: Vec<usize> =
                         w.timers.iter().enumerate().filter(|(_, t)| !t.fired && !t.dropped).map(|(k, _)| k).collect();
                     if let Some(&k) = pending.get(i as usize) {
+                        if w.timers[k].reboot { w.reask_causes += 1; }
                         w.timers[k].fired = true;
                         if let Some(wk) = w.timers[k].waker.take() {
                             wk.wake();
@@ -1364,6 +1417,6 @@ pub fn g_case(c: &Value, r: &RunResult) -> String {
         g_list(&apps),
         g_env(c),
         g_list(&r.trace),
-        g_bool(r.hang || r.panic.is_some())
+        g_bool(r.hang || r.panic.is_some() || r.violation.is_some())
     )
 }
